@@ -8,7 +8,7 @@ from ..stubs import IoShim
 MANIFEST = dict(
     engines="A",
     technique="symbolic execution (CrossHair+z3) of _multivalued.__init__/get_as_string/_fixed_field_lengths for Dsc, Changes, BuildInfo, PdiffIndex and Release: class variant and the subset of structured fields present are symbolic integers, record tokens and sizes are symbolic strings",
-    text="Bounded model checking: for each of the five classes (Release in both size modes), every subset of its structured fields being present (symbolic bitmask over up to 6 fields per partition), 1-2 records per field, one record made of symbolic whitespace-free tokens (up to 2 characters; size column 1-3 symbolic digits): parsing exposes the records under the documented sub-field names, dump() never raises, the dump re-parses to the same records in order, the size column is right-aligned to 16 (or the longest size), and a paragraph built from record lists dumps and re-parses to the same records.",
+    text="Bounded model checking: for each of the five classes (Release in both size modes), every subset of its structured fields being present (symbolic bitmask over up to 6 fields per partition), 1-2 records per field, one record made of symbolic whitespace-free tokens (up to 2 characters; size column 1-3 symbolic digits): parsing exposes the records under the documented sub-field names, dump() never raises, the dump re-parses to the same records in order, the size column is right-aligned to 16 (or the longest size), and a paragraph built from record lists dumps and re-parses to the same records. Every subset of the present fields may be written in single-line form (second symbolic bitmask); for Release the single-line size column is checked too.",
     note="Trusted: CrossHair's str models; stub: pure-Python StringIO inside debian.deb822 (the C StringIO realises symbolic text). Outside: empty record lists, gpg-signed input (C02 covers armor stripping).",
 )
 
